@@ -206,6 +206,8 @@ def main(tier, replay=None):
 
     # 2. generated histories
     n = 128 if tier == "quick" else 1280
+    if c.escalated:   # a modelled Go function changed since the pin (c.drift): look harder, no verdict from drift alone
+        n *= 3
     impl = os.path.join(c.workdir, "impl.txt")
     if replay:
         rp = json.load(open(replay))
